@@ -175,6 +175,15 @@ func runC02(c *Cfg) {
 		cases = append(cases, &c02Case{src: []byte(src), origin: fmt.Sprintf("idiom#%d", i), kind: "idiom", runs: 8,
 			known: i >= len(c02Idioms)-c02KnownTail && !c.Thorough()})
 	}
+	// structure-sharing amplification (seeded change C02-b): a chain of structs each referring
+	// k times to the level below is a DAG of depth·k edges for the evaluator; a stage that walks
+	// it once per PATH instead of once per vertex costs k^depth.  The leaf is not concrete, so
+	// the exports that must expand the tree stop at the first incomplete value; depth is chosen
+	// so that the expanded tree (k^depth nodes) is still printable within the case budget on the
+	// unchanged tree, while a per-path walk with error accumulation is far beyond it.
+	for i, src := range c02SharingPrograms() {
+		cases = append(cases, &c02Case{src: []byte(src), origin: fmt.Sprintf("sharing#%d", i), kind: "idiom", runs: 2})
+	}
 	for i, src := range c02LiteralPrefixes() {
 		cases = append(cases, &c02Case{src: []byte(src), origin: fmt.Sprintf("literal-prefix#%d", i), kind: "literal-prefix", runs: 2})
 	}
@@ -942,4 +951,31 @@ func c02Report(c *Cfg, pool *c02Pool, failures []*c02Failure, cpuMs int) {
 		c.Direct(false, it.class, fmt.Sprintf("%s: %s", it.f.kind, c02Trunc(it.f.detail, 600)),
 			map[string]any{"input": string(it.min), "input_hex": H(string(it.min)), "minimised": it.did || len(it.f.src) <= 48, "original_bytes": len(it.f.src), "origin": it.f.origin})
 	}
+}
+
+// c02SharingPrograms: small programs whose evaluated value is a heavily shared DAG.
+func c02SharingPrograms() []string {
+	var out []string
+	gen := func(depth, k int, leaf string, fields []string) string {
+		var b strings.Builder
+		fmt.Fprintf(&b, "a0: %s\n", leaf)
+		for n := 1; n <= depth; n++ {
+			fmt.Fprintf(&b, "a%d: {", n)
+			for j := 0; j < k; j++ {
+				if j > 0 {
+					b.WriteString(", ")
+				}
+				fmt.Fprintf(&b, "%s: a%d", fields[j], n-1)
+			}
+			b.WriteString("}\n")
+		}
+		return b.String()
+	}
+	out = append(out,
+		gen(13, 2, `{x: int, y: "s"}`, []string{"l", "r"}),
+		gen(15, 2, `{x: int, y: "s"}`, []string{"l", "r"}),
+		gen(9, 3, `{x: string, y: 1}`, []string{"p", "q", "r"}),
+		gen(14, 2, `{x: >0, y: [1, 2]}`, []string{"first", "second"}),
+	)
+	return out
 }
